@@ -217,7 +217,9 @@ class cstruct:
         Raises:
             ValueError: If the type already exists.
         """
-        if not replace and (name in self.typedefs and self.resolve(self.typedefs[name]) != self.resolve(type_)):
+        if not replace and (
+            name in self.typedefs and not _same_type(self.resolve(self.typedefs[name]), self.resolve(type_))
+        ):
             raise ValueError(f"Duplicate type: {name}")
 
         self.typedefs[name] = type_
@@ -567,6 +569,30 @@ class cstruct:
         ushort: TypeAlias = uint16
         uint: TypeAlias = uint32
         ulong: TypeAlias = uint32
+
+
+def _same_type(a: type[BaseType], b: type[BaseType]) -> bool:
+    """Whether two types are the same type.
+
+    Array and pointer types are made anew for every declaration, they are the same if they are made of the same parts.
+    """
+    if a is b:
+        return True
+
+    if not (isinstance(a, type) and isinstance(b, type)):
+        return False
+
+    if issubclass(a, BaseArray) and issubclass(b, BaseArray):
+        if isinstance(a.num_entries, Expression) and isinstance(b.num_entries, Expression):
+            same_count = a.num_entries.expression == b.num_entries.expression
+        else:
+            same_count = a.num_entries == b.num_entries
+        return same_count and a.null_terminated == b.null_terminated and _same_type(a.type, b.type)
+
+    if issubclass(a, Pointer) and issubclass(b, Pointer):
+        return a.size == b.size and _same_type(a.type, b.type)
+
+    return False
 
 
 def ctypes(structure: type[Structure]) -> type[_ctypes.Structure]:
